@@ -10,11 +10,11 @@ Model: `Conn.step` (L2, `Conn/Model.lean`, `Conn/Step.lean`).  A Rust panic is t
 | site (model function) | Rust site | unreachable because | lemma |
 |---|---|---|---|
 | `releaseId` | `value_allocator.rs` range assertion / `value+1` overflow | always called after `is_used_id` (`releaseIfUsed`, `pubRefuseCleanup`), allocator refines a set (`PidWf`, C20) | `PidWf.dealloc_none`, `releaseId_s`, `releaseIfUsed_s` |
-| `sendStoredLoop` | `publish_send_count += 1` in `send_stored` | counter is reset on entry, ≤ 65535 stored entries (`Headroom`) | `sendStoredLoop_s`, `sendStored_s` |
+| `sendStoredLoop` | `publish_send_count += 1` (a `u32` since fix ab9a1ec) in `send_stored` | counter is reset on entry and grows by one per stored entry; stored ids are pairwise distinct (`StoreInv`) and lie in the allocator's range `[1, idMax]`, `idMax = 256^pw − 1 ≤ u32::MAX` for `pw ≤ 4` (`StoreRange`), so by pigeonhole at most `u32::MAX` entries are stored (`StoreRange.headroom`: `Headroom` is now a lemma, not a side condition) | `sendStoredLoop_s`, `sendStored_s`, `Rng.sr_step`, `Pigeon.keys_length_le` |
 | `storeAdd` | `store.add().unwrap()` (v3/v5 PUBLISH, PUBREL) | ownership: stored ids ⊆ wait sets (`StoreInv`), a legal send uses an id in no wait set (`IdFresh`); the automatic PUBREL follows the removal of the id from `pubrec` and of its stored PUBLISH | `StoreInv.fresh_not_stored`, `storeAdd_s`, `psV3Publish_goodV`, `psV5Publish_goodV`, `psPubrel_goodV`, `prPubrec_goodV` |
 | `psV3Publish`, `psV5Publish` | `packet_id().unwrap()` | local contract `PubIdOk` | `psV3Publish_goodV`, `psV5Publish_goodV` |
 | `tasInsert` | `TopicAliasSend::insert_or_update` assert | topic non-empty, alias validated / chosen by `get_lru_alias` inside `[1, max]` (`TasInv`) | `tasInsert_s`, `TasInv.lruAlias`, `autoAlias_s` |
-| `psV5PublishTail` | `publish_send_count += 1` | gate `count < Receive Maximum ≤ 65535` (`Credit`) | `psV5PublishTail_goodV`, `rmBlocked_false` |
+| `psV5PublishTail` | `publish_send_count += 1` (`u32`) | gate `count < Receive Maximum ≤ 65535 < u32::MAX` (`Credit`) | `psV5PublishTail_goodV`, `rmBlocked_false` |
 | `psV5Publish` | `remove_topic_alias_add_topic().unwrap()` | send alias table holds wildcard-free topics (`TasInv`; topics enter only from `send`, `WfSent`) | `validateTopicAlias_s`, `TasInv.get` |
 | `connackRecvProp` ×2 | `assert!(val != 0)` | parser-validated (`WfParsedT`) | `connackRecvProp_goodV` |
 | `prV3Publish`, `prV5Publish` ×3 each | `packet_id().unwrap()`, PUBACK/PUBREC `build().unwrap()` | parser rejects QoS>0 without / with zero id (`WfParsedT`) | `prV3Publish_goodV`, `prV5Publish_goodV` |
@@ -22,47 +22,67 @@ Model: `Conn.step` (L2, `Conn/Model.lean`, `Conn/Step.lean`).  A Rust panic is t
 
 All statements quantify over every configuration, every state satisfying the invariant, every
 peer input (`recv inp parse` for every `inp` and every parser satisfying `ParserOk`) and every
-sequence of calls; nothing is bounded.
+sequence of calls; nothing is bounded.  The only assumption on the configuration is that packet
+identifiers are at most 4 bytes wide (`cfg.pw ≤ 4`; the library instantiates `u16` and `u32`).
 -/
 set_option linter.unusedSimpArgs false
 set_option linter.unusedVariables false
 namespace MqttVerif.Conn
 open MqttVerif
 
-/-- **the global invariant** (`Good` = `Inv` + "no panic so far") -/
+/-- **the global invariant** (`Good ∧ StoreRange` = `Inv` + "no panic so far").  `StoreRange`
+    (new with fix ab9a1ec): stored identifiers lie in the allocator's range, a sub-range of
+    `[1, u32::MAX]`. -/
 def Inv (s : St) : Prop :=
   PidWf s.pidMan ∧ StoreInv s.ver s.store s.puback s.pubrec s.pubcomp ∧ TasOptInv s.tas ∧
-  Credit s.sendMax ∧ Framing.Inv s.pb ∧ VerTimer s.ver s.status s.sendSet s.recvSet s.respSet
+  Credit s.sendMax ∧ Framing.Inv s.pb ∧ VerTimer s.ver s.status s.sendSet s.recvSet s.respSet ∧
+  StoreRange s
 
-theorem good_iff (s : St) : Good s ↔ Inv s ∧ s.panic = none := by
+theorem good_iff (s : St) : (Good s ∧ StoreRange s) ↔ Inv s ∧ s.panic = none := by
   unfold Good Base Inv
   constructor
-  · rintro ⟨⟨a, b, c, d, e, f⟩, g⟩; exact ⟨⟨a, b, c, d, e, g⟩, f⟩
-  · rintro ⟨⟨a, b, c, d, e, g⟩, f⟩; exact ⟨⟨a, b, c, d, e, f⟩, g⟩
+  · rintro ⟨⟨⟨a, b, c, d, e, f⟩, g⟩, r⟩; exact ⟨⟨a, b, c, d, e, g, r⟩, f⟩
+  · rintro ⟨⟨a, b, c, d, e, g, r⟩, f⟩; exact ⟨⟨⟨a, b, c, d, e, f⟩, g⟩, r⟩
 
-/-- the invariant holds for a freshly constructed object -/
-theorem C05_inv_init (cfg : Cfg) (ver : Nat) (hpw : 1 ≤ cfg.pw) (hv : ver = 0 ∨ ver = 4 ∨ ver = 5) :
+/-- the invariant holds for a freshly constructed object (identifiers of at most 4 bytes) -/
+theorem C05_inv_init (cfg : Cfg) (ver : Nat) (hpw : 1 ≤ cfg.pw) (h4 : cfg.pw ≤ 4)
+    (hv : ver = 0 ∨ ver = 4 ∨ ver = 5) :
     Inv (St.init cfg ver) ∧ (St.init cfg ver).panic = none :=
-  (good_iff _).1 (init_good hpw hv)
+  (good_iff _).1 ⟨init_good hpw hv, init_range hpw h4⟩
+
+/-- **the store never overflows the counter** (the former side condition, now derived): in a
+    state of the invariant class at most `u32::MAX` packets are stored — and, more precisely,
+    at most as many as there are identifiers in the allocator's range. -/
+theorem C05_headroom (s : St) (hi : Inv s) (hn : s.panic = none) :
+    Headroom s ∧ s.store.length ≤ s.pidMan.highest := by
+  have h := (good_iff s).2 ⟨hi, hn⟩
+  refine ⟨h.2.headroom h.1, ?_⟩
+  exact Pigeon.keys_length_le h.1.store.2.2.2.2 (fun x hx => by
+    have := h.2.2.2 x hx; have := h.2.1; omega)
 
 /-- **C05, no panic (one call).**  In every state of the invariant class that has not panicked,
     every contract-respecting local call and every `recv` of ARBITRARY bytes with an arbitrary
     parser whose successful results are well formed returns without panic, and the state
-    stays in the class. -/
+    stays in the class.  No bound on the number of stored packets is assumed (`Legal` no longer
+    contains `Headroom`). -/
 theorem C05_no_panic (cfg : Cfg) (s : St) (op : Op) (hi : Inv s) (hn : s.panic = none)
     (hl : Legal cfg s op) :
     (step cfg s op).s.panic = none ∧ Inv (step cfg s op).s := by
-  have := (good_iff _).1 (step_good (cfg := cfg) ((good_iff s).2 ⟨hi, hn⟩) hl)
+  have h := (good_iff s).2 ⟨hi, hn⟩
+  have := (good_iff _).1 ⟨step_good (cfg := cfg) h.1 h.2 hl, step_range (cfg := cfg) h.1 h.2 op⟩
   exact ⟨this.2, this.1⟩
 
-/-- **C05, no panic (all call sequences from a fresh object).** -/
-theorem C05_no_panic_run (cfg : Cfg) (ver : Nat) (hpw : 1 ≤ cfg.pw) (hv : ver = 0 ∨ ver = 4 ∨ ver = 5)
+/-- **C05, no panic (all call sequences from a fresh object)**, for every identifier type of at
+    most 4 bytes. -/
+theorem C05_no_panic_run (cfg : Cfg) (ver : Nat) (hpw : 1 ≤ cfg.pw) (h4 : cfg.pw ≤ 4)
+    (hv : ver = 0 ∨ ver = 4 ∨ ver = 5)
     (ops : List Op) (hl : LegalSeq cfg (St.init cfg ver) ops) :
     (run cfg (St.init cfg ver) ops).panic = none ∧ Inv (run cfg (St.init cfg ver) ops) := by
-  have := (good_iff _).1 (run_good (init_good hpw hv) ops hl)
+  have := (good_iff _).1 (run_good (init_good hpw hv) (init_range hpw h4) ops hl)
   exact ⟨this.2, this.1⟩
 
-/-- the same contract without the side condition `Headroom` (at most 65535 stored packets) -/
+/-- the contract written out (it was "the same contract without the side condition `Headroom`"
+    while `Legal` contained it; since fix ab9a1ec the two coincide: `legalNoHeadroom_iff`) -/
 def LegalNoHeadroom (cfg : Cfg) (s : St) : Op → Prop
   | .send p => WfSent p ∧ (p.kind = .publish → PubIdOk s p) ∧ (p.kind = .pubrel → IdFresh s (p.pid.getD 0))
   | .recv _ parse => ParserOk parse
@@ -74,13 +94,31 @@ def LegalSeqNoHeadroom (cfg : Cfg) : St → List Op → Prop
   | _, [] => True
   | s, op :: ops => LegalNoHeadroom cfg s op ∧ LegalSeqNoHeadroom cfg (step cfg s op).s ops
 
-/-- the unconditional statement.  NOT proved: with 4-byte identifiers the store can hold more
-    than 65535 packets and `send_stored` then overflows the `u16` `publish_send_count`
-    (site `sendStoredLoop`); with 2-byte identifiers it needs the additional invariant
-    "store identifiers are distinct and in `[1, 65535]`" (see `notes/P8-report.md`). -/
+theorem legalNoHeadroom_iff (cfg : Cfg) (s : St) (op : Op) : LegalNoHeadroom cfg s op ↔ Legal cfg s op := by
+  cases op <;> exact Iff.rfl
+
+theorem legalSeqNoHeadroom_iff (cfg : Cfg) (s : St) (ops : List Op) :
+    LegalSeqNoHeadroom cfg s ops ↔ LegalSeq cfg s ops := by
+  induction ops generalizing s with
+  | nil => exact Iff.rfl
+  | cons op ops ih =>
+    simp only [LegalSeqNoHeadroom, LegalSeq]
+    rw [legalNoHeadroom_iff, ih]
+
+/-- the unconditional statement: no side condition on the number of stored packets.  It was left
+    unproved while `publish_send_count` was a `u16` (with 4-byte identifiers the store can hold
+    more than 65535 packets and `send_stored` then overflowed the counter, finding fixed by
+    ab9a1ec).  The hypothesis `cfg.pw ≤ 4` is needed: with identifiers wider than the `u32`
+    counter the same overflow would come back. -/
 def C05_no_panic_full : Prop :=
-  ∀ (cfg : Cfg) (ver : Nat), 1 ≤ cfg.pw → (ver = 0 ∨ ver = 4 ∨ ver = 5) →
+  ∀ (cfg : Cfg) (ver : Nat), 1 ≤ cfg.pw → cfg.pw ≤ 4 → (ver = 0 ∨ ver = 4 ∨ ver = 5) →
     ∀ ops, LegalSeqNoHeadroom cfg (St.init cfg ver) ops → (run cfg (St.init cfg ver) ops).panic = none
+
+/-- **C05, no panic, without `Headroom`** (justifies `VIOL sig=C05 panic@…` on every legal walk,
+    however many packets are stored) -/
+theorem C05_no_panic_full_holds : C05_no_panic_full := by
+  intro cfg ver hpw h4 hv ops hl
+  exact (C05_no_panic_run cfg ver hpw h4 hv ops ((legalSeqNoHeadroom_iff _ _ _).1 hl)).1
 
 /-- **C05, the identifier calls are total**: `acquire`, `register id`, `release id`, `erase id`
     for EVERY `id` (0, out of range, free, in flight) never panic — only the allocator's
@@ -215,34 +253,36 @@ theorem nvOps_legal : LegalSeq nvCfg (St.init nvCfg 5) nvOps := by
   have nk' : ∀ {k : Kind} {P : Prop}, Kind.publish ≠ k → (nvPub.kind = k → P) :=
     fun hne h => absurd h hne
   refine ⟨?_, ?_, trivial, ?_, ?_, ?_, ?_, trivial, trivial⟩
-  · exact ⟨⟨Or.inr rfl, nk (by decide)⟩, nk (by decide), nk (by decide), nk (by decide)⟩
-  · exact ⟨nvParse_ok, by unfold Headroom; decide⟩
-  · refine ⟨⟨Or.inr rfl, fun _ => by decide⟩, fun _ _ => ⟨1, rfl, ?_⟩, nk' (by decide), nk' (by decide)⟩
+  · exact ⟨⟨Or.inr rfl, nk (by decide)⟩, nk (by decide), nk (by decide)⟩
+  · exact nvParse_ok
+  · refine ⟨⟨Or.inr rfl, fun _ => by decide⟩, fun _ _ => ⟨1, rfl, ?_⟩, nk' (by decide)⟩
     unfold IdFresh; decide
-  · exact ⟨nvParse_ok, by unfold Headroom; decide⟩
+  · exact nvParse_ok
   · show timerFlag _ _ = true; decide
-  · exact ⟨nvParse_ok, by unfold Headroom; decide⟩
+  · exact nvParse_ok
 
 /-- `C05_no_panic_run` applies to a sequence with a CONNECT, a CONNACK carrying Receive
     Maximum and Topic Alias Maximum, a stored QoS 2 PUBLISH, a received PUBLISH, raw garbage,
     a timer expiry and a close -/
 example : (run nvCfg (St.init nvCfg 5) nvOps).panic = none :=
-  (C05_no_panic_run nvCfg 5 (by decide) (by decide) _ nvOps_legal).1
+  (C05_no_panic_run nvCfg 5 (by decide) (by decide) (by decide) _ nvOps_legal).1
 
 /-- a non-trivial state in the invariant class: connected, Receive Maximum 10, alias table of
     size 5, one stored QoS 2 exchange -/
 def nvS : St := run nvCfg (St.init nvCfg 5) (nvOps.take 5)
 
-theorem nvS_good : Good nvS :=
-  run_good (init_good (by decide) (by decide)) _
+theorem nvS_good' : Good nvS ∧ StoreRange nvS :=
+  run_good (init_good (by decide) (by decide)) (init_range (by decide) (by decide)) _
     ⟨nvOps_legal.1, nvOps_legal.2.1, trivial, nvOps_legal.2.2.2.1, nvOps_legal.2.2.2.2.1, trivial⟩
+
+theorem nvS_good : Good nvS := nvS_good'.1
 
 example : nvS.status = .connected ∧ nvS.sendMax = some 10 ∧ nvS.pubrec = [1] ∧ nvS.store.length = 1 := by
   decide
 
 /-- hypotheses of `C05_no_panic` hold for `nvS` and a `recv` of garbage -/
 example : Inv nvS ∧ nvS.panic = none ∧ Legal nvCfg nvS (.recv [0xFF, 0xFF, 0xFF, 0xFF, 0xFF] nvParse) :=
-  ⟨((good_iff _).1 nvS_good).1, ((good_iff _).1 nvS_good).2, nvParse_ok, by unfold Headroom; decide⟩
+  ⟨((good_iff _).1 nvS_good').1, ((good_iff _).1 nvS_good').2, nvParse_ok⟩
 
 /-- hypotheses of `C05_idcalls_total` -/
 example : PidWf nvS.pidMan ∧ nvS.panic = none := ⟨nvS_good.pid, nvS_good.np⟩
@@ -258,8 +298,8 @@ example : (3 * 16 + 4) / 16 = 3 ∧
 /-- hypothesis of `C05_recv_consumes` in a state holding half a frame -/
 example : Framing.Inv (step nvCfg nvS (.recv [0x30, 9, 0] nvParse)).s.pb ∧
     (step nvCfg nvS (.recv [0x30, 9, 0] nvParse)).s.pb.buf = [0] :=
-  ⟨(step_good (cfg := nvCfg) (op := .recv [0x30, 9, 0] nvParse) nvS_good
-      ⟨nvParse_ok, by unfold Headroom; decide⟩).1.2.2.2.2.1, by decide⟩
+  ⟨(step_good (cfg := nvCfg) (op := .recv [0x30, 9, 0] nvParse) nvS_good nvS_good'.2
+      nvParse_ok).1.2.2.2.2.1, by decide⟩
 
 /-- hypotheses of `C05_closed_then_connectable_send` (the state holds half a frame) -/
 example : (nvCfg.role = .client ∨ nvCfg.role = .any) ∧ nvConnect.kind = .connect ∧
